@@ -65,6 +65,27 @@ func runC05(t *testing.T, tape *sim.Tape, tier string) *Outcome {
 			return redis.NewBulkMessage(cc.tok), nil
 		})
 	}
+	// one run in eight: the application also registers an executor under the name of a built-in command,
+	// which replaces the built-in one (the later registration under a name is the one dispatched)
+	override := ""
+	if tape.Draw(8, "override") == 7 {
+		override = []string{"ECHO", "STRLEN", "TYPE", "TTL", "ZCARD"}[tape.Draw(5, "overridename")] // names that no composed command dispatches internally
+		reg := override
+		w.Srv.RegisterExexutor(reg, func(conn *redis.Conn, cmd string, args redis.Arguments) (*redis.Message, error) {
+			cc := customCall{cid: w.D.ConnID(conn), cmd: cmd, reg: reg, tok: fmt.Sprintf("custom%d", len(customs))}
+			for {
+				s, err := args.NextString()
+				if err != nil {
+					break
+				}
+				cc.args = append(cc.args, s)
+			}
+			customs = append(customs, cc)
+			w.S.Logf(cc.cid, "custom executor %s %q %q", reg, cmd, cc.args)
+			return redis.NewBulkMessage(cc.tok), nil
+		})
+		o.stat("runs_overriding_a_builtin_executor", 1)
+	}
 	nconn := 1 + tape.Draw(3, "nconn")
 	maxN := 8
 	if tier == "thorough" {
@@ -82,6 +103,19 @@ func runC05(t *testing.T, tape *sim.Tape, tier string) *Outcome {
 		var reqs []*wl.Req
 		for i := 0; i < n; i++ {
 			switch tape.Draw(12, "special") {
+			case 2:
+				if tape.Draw(48, "wide") != 47 { // 0 stays the cheap choice
+					r := g.Next(i, 0, 0)
+					for r.Quit || (override != "" && r.Name == override) {
+						r = g.Next(i, 0, 0)
+					}
+					reqs = append(reqs, r)
+					break
+				}
+				// a variadic command with element counts around 2^16: every key, in order
+				reqs = append(reqs, wl.WideRequest(i, []int{65535, 65536, 65537, 70001}[tape.Draw(4, "width")]))
+				c.chunkMode = 0
+				o.stat("wide_requests", 1)
 			case 0: // unknown command
 				reqs = append(reqs, g.Next(i, 0, 16))
 			case 1: // application-registered executor
@@ -96,6 +130,10 @@ func runC05(t *testing.T, tape *sim.Tape, tier string) *Outcome {
 				r := g.Next(i, 0, 0)
 				for r.Quit { // QUIT is C03's subject
 					r = g.Next(i, 0, 0)
+				}
+				if override != "" && r.Name == override {
+					// this name is served by the application's executor in this run
+					r = &wl.Req{Idx: i, Name: override, Args: r.Args, Bytes: r.Bytes, Mode: wl.Custom, Class: "custom", SelectDB: -1}
 				}
 				reqs = append(reqs, r)
 			}
